@@ -1,5 +1,207 @@
 package c01
 
-import "wrverif/res"
+import (
+	"fmt"
+	"strings"
+	"time"
 
-func runModel(modelPath string, seed uint64, tier, repo string, out *res.Result) error { return nil }
+	pa "github.com/benoitkugler/webrender/css/parser"
+	"github.com/benoitkugler/webrender/css/validation"
+	"github.com/benoitkugler/webrender/html/tree"
+	"github.com/benoitkugler/webrender/utils"
+	"golang.org/x/net/html"
+
+	"wrverif/mp"
+	"wrverif/render"
+	"wrverif/res"
+	"wrverif/rng"
+	"wrverif/sx"
+)
+
+// runModel: unit-level correspondences of the three Lean models (WR/C01/Model.lean) with the real code.
+//
+//	root  : tree.NewHTML's choice of root over child lists shaped like html.Parse output  vs pickRoot / pickRootFixed
+//	keep  : validation.PreprocessDeclarations on a list  vs  keepValid over the per-declaration results
+func runModel(modelPath string, seed uint64, tier, repo string, out *res.Result) error {
+	m, err := mp.Start(modelPath)
+	if err != nil {
+		return err
+	}
+	defer m.Close()
+	render.Quiet()
+	r := rng.New(seed ^ 0xC01A)
+
+	// ---- root discovery
+	follows := "" // which model the implementation follows: "current" / "fixed", decided by the first discriminating case
+	type shape struct {
+		dt        bool
+		pre, post int
+	}
+	var shapes []shape
+	for _, dt := range []bool{false, true} {
+		for pre := 0; pre <= 3; pre++ {
+			for post := 0; post <= 2; post++ {
+				shapes = append(shapes, shape{dt, pre, post})
+			}
+		}
+	}
+	for i := 0; i < 40; i++ {
+		shapes = append(shapes, shape{r.Bool(), r.Intn(6), r.Intn(4)})
+	}
+	for _, s := range shapes {
+		var b strings.Builder
+		ks := []sx.X{}
+		if s.dt {
+			b.WriteString("<!DOCTYPE html>")
+			ks = append(ks, sx.A("doctype"))
+		}
+		for i := 0; i < s.pre; i++ {
+			fmt.Fprintf(&b, "<!-- pre %d -->", i)
+			ks = append(ks, sx.A("comment"))
+		}
+		b.WriteString("<html><head></head><body><p>x</p></body></html>")
+		ks = append(ks, sx.L(sx.A("element"), sx.S("html")))
+		for i := 0; i < s.post; i++ {
+			fmt.Fprintf(&b, "<!-- post %d -->", i)
+			ks = append(ks, sx.A("comment"))
+		}
+		src := b.String()
+		ans, err := m.Ask(sx.L(sx.A("root"), sx.L(ks...)))
+		if err != nil {
+			return err
+		}
+		out.ModelCalls++
+		if len(ans.Xs) != 3 || ans.Xs[0].S != "ok" {
+			return fmt.Errorf("model: unexpected answer %s", ans)
+		}
+		cur, fixed := ans.Xs[1].String(), ans.Xs[2].String()
+		var impl string
+		oc := render.Guard(10*time.Second, func() {
+			h, err := tree.NewHTML(utils.InputString(src), "", nil, "")
+			if err != nil {
+				impl = "(error)"
+				return
+			}
+			// index of the chosen node among the document's children
+			idx := 0
+			for n := (*html.Node)(h.Root).PrevSibling; n != nil; n = n.PrevSibling {
+				idx++
+			}
+			switch h.Root.Type {
+			case html.ElementNode:
+				impl = fmt.Sprintf("(node %d (element \"%s\"))", idx, h.Root.Data)
+			case html.CommentNode:
+				impl = fmt.Sprintf("(node %d comment)", idx)
+			case html.DoctypeNode:
+				impl = fmt.Sprintf("(node %d doctype)", idx)
+			default:
+				impl = fmt.Sprintf("(node %d text)", idx)
+			}
+		})
+		out.Count("root:"+src, s.pre > 0 || s.dt)
+		out.Hit("L1:root")
+		if !oc.OK() {
+			out.Add(res.Finding{Kind: "crash", Op: "root", Input: src, Reason: oc.Panic, Key: oc.Site})
+			continue
+		}
+		// judge: the property's own statement — the root is the element
+		if !strings.Contains(impl, "(element \"html\")") {
+			out.Add(res.Finding{Kind: "judge", Op: "root-found", Input: src, Impl: impl, Model: cur,
+				Reason: "tree.NewHTML selected " + impl + " as the root instead of the <html> element", Key: "root-not-element"})
+		}
+		if cur != fixed && follows == "" {
+			if impl == cur {
+				follows = "current"
+			} else if impl == fixed {
+				follows = "fixed"
+			}
+		}
+		want := cur
+		if follows == "fixed" {
+			want = fixed
+		}
+		if impl != want {
+			out.Add(res.Finding{Kind: "corr", Op: "corr:root", Input: src, Impl: impl, Model: want, Reason: "root discovery differs from the model (" + follows + ")"})
+		}
+	}
+	if follows != "" {
+		out.Notes = append(out.Notes, "root discovery: the implementation follows the '"+follows+"' model (pickRoot = current code, pickRootFixed = proposed repair)")
+	}
+
+	// ---- keepValid vs PreprocessDeclarations
+	n := 1500
+	if tier == "thorough" {
+		n = 20000
+	}
+	g := &gen{r: r}
+	show := func(ds []validation.Declaration) []string {
+		var o []string
+		for _, d := range ds {
+			imp := ""
+			if d.Important {
+				imp = "!"
+			}
+			o = append(o, fmt.Sprintf("%s=%v%s", d.Name, d.Value, imp))
+		}
+		return o
+	}
+	for i := 0; i < n; i++ {
+		k := r.Range(1, 7)
+		var texts []string
+		for j := 0; j < k; j++ {
+			var d Decl
+			if r.P(1, 3) {
+				d = invalidDecls[r.Intn(len(invalidDecls))]
+			} else {
+				d = g.decl()
+			}
+			if strings.HasPrefix(d.Name, "--") || strings.Contains(d.Value, "var(") {
+				d = Decl{Name: "width", Value: "10px"} // var() declarations are validated later, at cascade time
+			}
+			texts = append(texts, d.String())
+		}
+		var whole []string
+		items := make([]sx.X, len(texts))
+		anyInvalid := false
+		oc := render.Guard(10*time.Second, func() {
+			whole = show(validation.PreprocessDeclarations("", pa.ParseBlocksContentsString(strings.Join(texts, ";"))))
+			for j, t := range texts {
+				one := show(validation.PreprocessDeclarations("", pa.ParseBlocksContentsString(t)))
+				if len(one) == 0 {
+					items[j] = sx.L(sx.A("err"))
+					anyInvalid = true
+				} else {
+					xs := []sx.X{sx.A("ok")}
+					for _, s := range one {
+						xs = append(xs, sx.S(s))
+					}
+					items[j] = sx.L(xs...)
+				}
+			}
+		})
+		src := strings.Join(texts, ";")
+		out.Count("keep:"+src, anyInvalid && k > 1)
+		out.Hit("L1:keep")
+		if !oc.OK() {
+			out.Add(res.Finding{Kind: "crash", Op: "preprocess-declarations", Input: src, Reason: oc.Panic, Key: oc.Site})
+			continue
+		}
+		ans, err := m.Ask(sx.L(sx.A("keep"), sx.L(items...)))
+		if err != nil {
+			return err
+		}
+		out.ModelCalls++
+		if len(ans.Xs) != 2 || ans.Xs[0].S != "ok" {
+			return fmt.Errorf("model: unexpected answer %s", ans)
+		}
+		var model []string
+		for _, x := range ans.Xs[1].Xs {
+			model = append(model, x.S)
+		}
+		if strings.Join(model, "\x00") != strings.Join(whole, "\x00") {
+			out.Add(res.Finding{Kind: "judge", Op: "invalid-skipped:declarations", Input: src, Impl: whole, Model: model,
+				Reason: "PreprocessDeclarations on the list differs from the concatenation of its results on each declaration alone (an invalid declaration influenced the others)"})
+		}
+	}
+	return nil
+}
